@@ -451,7 +451,12 @@ func init() {
 						// names in one fixed order, the permutations follow
 						srcs := []string{`"ctxlit"`, "jso.s", "77", "jso.n", `"c"`, "ivar", "jso.s2"}
 						rules = nil
-						for k, nm := range []string{"cva", "cvb", "cvc"} {
+						names := []string{"cva", "cvb", "cvc"}
+						if (ngroups/4)%2 == 1 {
+							// a dotted name is a name of its own, not a path into another variable
+							names = []string{"cva", "cva.sub", "cvc"}
+						}
+						for k, nm := range names {
 							rules = append(rules, []string{"ctx.", "context."}[(ngroups/4+k)%2]+nm+" = "+srcs[(ngroups/4+2*k)%len(srcs)])
 						}
 						st["context variables on a recycled context"]++
@@ -830,6 +835,13 @@ func genMalformedJob(r *prng, st map[string]int) Job {
 		"ctx.x = jso.s as nosuchins", "ctx.y = jso.s.(nosuchins)", "ctx = jso.s", "ctx.z = jso.missing", "obj.Id = z", "ctx.w = st.Finance.History",
 		"if x, ok := okh(nosuch); ok {\nprobe(x)\n}", "obj.Id = ident()", "probe(nosuch, obj.Nope, jso.s.x.y, st.Finance.History.7.Comment)",
 		"obj.Finance.History[x].Comment = jso.s", "obj.Status = st.Finance.History.zz.DateUnix", "obj.Id = jso.a.1x", "obj.Id = jso.s|upper()|default()",
+		// len() / cap() conditions: no argument, brackets in odd places
+		"obj.Name = len() ? jso.s : jso.s2", "obj.Name = cap() ? jso.s : jso.s2", "for i := 0; i < 2; i++ {\nobj.Name = len() ? jso.s : jso.s2\n}",
+		"for i := 0; i < 2; i++ {\nif len(\"jso.a]i[\") {\nprobe(i)\n}\n}", "for i := 0; i < 2; i++ {\nif cap(\"jso.a]i[\") {\nprobe(i)\n} else {\nprobe(0)\n}\n}",
+		"for i := 0; i < 2; i++ {\nobj.Id = len(\"]i[\") ? jso.s : jso.s2\n}", "for i := 0; i < 2; i++ {\nif len(\"jso.a[i]\") {\nprobe(i)\n}\n}", "if len(\"jso.a[0\") {\nprobe(1)\n}",
+		// condition helpers that are not registered
+		"if nosuchcond(jso.s) {\nprobe(20)\n}", "if nosuchcond(jso.s) {\nprobe(21)\n} else {\nprobe(22)\n}", "obj.Id = nosuchcond(jso.n) ? jso.s : jso.s2",
+		"switch {\ncase nosuchcond(jso.s):\nprobe(23)\ndefault:\nprobe(24)\n}",
 	}
 	for i := 0; i < n; i++ {
 		if r.chance(2, 3) {
